@@ -2,7 +2,6 @@ package main
 
 import (
 	"crypto/aes"
-	"crypto/sha1"
 	"fmt"
 	"go/token"
 	"go/types"
@@ -51,40 +50,7 @@ func uf(name string, args []int, res int) {
 	}
 }
 
-func (e *Engine) sha1Sym(in []Term) []Term {
-	allc := true
-	for _, t := range in {
-		if !t.IsConst() {
-			allc = false
-		}
-	}
-	if allc {
-		b := make([]byte, len(in))
-		for i, t := range in {
-			b[i] = byte(t.C.Uint64())
-		}
-		h := sha1.Sum(b)
-		out := make([]Term, 20)
-		for i := range h {
-			out[i] = BV(8, int64(h[i]))
-		}
-		if len(in) > 0 {
-			e.recordHash("sha1", len(in), ConcatBytes(in), ConcatBytes(out))
-		} else {
-			e.recordHash("sha1", 0, BV(1, 0), ConcatBytes(out))
-		}
-		return out
-	}
-	if len(in) == 0 {
-		panic("sha1 of empty handled as concrete")
-	}
-	name := fmt.Sprintf("sha1_%d", len(in))
-	uf(name, []int{8 * len(in)}, 160)
-	inT := ConcatBytes(in)
-	outT := App(name, 160, inT)
-	e.recordHash("sha1", len(in), inT, outT)
-	return SplitBytes(outT)
-}
+func (e *Engine) sha1Sym(in []Term) []Term { return e.hashSym("sha1", 20, in) }
 
 type aesBlock struct{ key Term }
 
@@ -333,7 +299,7 @@ func init() {
 		return nil
 	})
 	R("Cover", func(e *Engine, fr *frame, a []Value) Value { e.covers[strVal(a[0])] = true; return nil })
-	R("Symbolic", func(e *Engine, fr *frame, a []Value) Value { return Bool(true) })
+	R("Symbolic", func(e *Engine, fr *frame, a []Value) Value { return Bool(optVector == nil) })
 	R("And", func(e *Engine, fr *frame, a []Value) Value { return And(a[0].(Term), a[1].(Term)) })
 	R("Or", func(e *Engine, fr *frame, a []Value) Value { return Or(a[0].(Term), a[1].(Term)) })
 	R("Not", func(e *Engine, fr *frame, a []Value) Value { return Not(a[0].(Term)) })
